@@ -289,6 +289,7 @@ type Proc struct {
 	same  bool // substitutes are fresh instances of the component's own type
 	rt    *RT
 	Snap  map[string]string // slot snapshot per node at before-initialization
+	Veto  map[string]bool   // before-initialization answers nil for these components (their init methods and the after-initialization callbacks are skipped)
 }
 
 func (p *Proc) Naming() string { return p.Nm }
@@ -384,6 +385,9 @@ func (p *Proc) PostProcessBeforeInitialization(c any, name string) (any, error) 
 	if p.Plan[name] == WrapBefore {
 		return p.mk(c, name, "b", false), nil
 	}
+	if p.Veto[name] {
+		return nil, nil
+	}
 	return c, nil
 }
 
@@ -452,6 +456,7 @@ type GraphProg struct {
 	Reg           []int   `json:"reg,omitempty"`  // registration order (default 0..n-1)
 	Base          []int   `json:"base,omitempty"` // base iteration order of the user names
 	Mode          int     `json:"mode,omitempty"`
+	Veto          []bool  `json:"vetoed_initialization,omitempty"`   // per node: the processor answers nil from before-initialization
 	WrapSame      bool    `json:"same_type_substitutes,omitempty"`   // the substituting processor answers another instance of the component's own type
 	WrapFunc      bool    `json:"func_shaped_substitutes,omitempty"` // the substituting processor answers closures (WF) instead of struct pointers
 	SwallowLookup bool    `json:"lookup_errors_ignored,omitempty"`   // Init ignores the error of its look-ups; every Init logs its successful completion
@@ -833,6 +838,14 @@ func RunGraph(p *GraphProg, ch *envx.Chooser) *GraphObs {
 		if k == 0 {
 			for i, w := range p.Wrap {
 				pr.Plan[Name(i, p.N)] = w
+			}
+			for i, v := range p.Veto {
+				if v {
+					if pr.Veto == nil {
+						pr.Veto = map[string]bool{}
+					}
+					pr.Veto[Name(i, p.N)] = true
+				}
 			}
 		}
 		o.Procs = append(o.Procs, pr)
